@@ -243,7 +243,9 @@ int main(int argc, char **argv) {
         UNDEF(deckey, 32);
         if (begin_case(26, cfg)) { r = secp256k1_ecdsa_adaptor_decrypt(ctxs[ck], &sig, deckey, asig); end_case("ecdsa_adaptor_decrypt", desc, r); }
         else { r = secp256k1_ecdsa_adaptor_decrypt(ctxs[ck], &sig, deckey, asig); DEF(&r, sizeof(r)); }
-        DEF(&sig, sizeof(sig)); UNDEF(&sig, 32);
+        /* as in the maintainers' ctime_tests.c: the signature stays tainted by the secret decryption key it was
+         * computed from (only the return value of decrypt is declassified), and r is marked secret explicitly */
+        UNDEF(&sig, 32);
         if (begin_case(27, cfg)) { r = secp256k1_ecdsa_adaptor_recover(ctxs[ck], exp, &sig, asig, &enckey); DEF(exp, 32); end_case("ecdsa_adaptor_recover", desc, r); }
         DEF(deckey, 32); DEF(&sig, sizeof(sig));
     }
